@@ -1,4 +1,4 @@
-"""C19 -- the streaming text writers xyz and mdcrd: any partition of the frames into write() calls gives the same text.
+"""C19 -- the streaming text writers xyz, mdcrd and lammpstrj: any partition of the frames into write() calls gives the same text.
 
 `write` is executed on symbolic coordinates (2 frames x 2 atoms; with/without cell for mdcrd); every `self._fh.write(...)` is recorded as a
 stream of tokens: literal text and FORMATTED symbolic numbers (value, format specification) -- number formatting itself is not modelled.
@@ -217,3 +217,78 @@ def mdcrd_writer(ctx, case):
 
 contract("C19", "mdtraj/formats/mdcrd.py", "MDCRDTrajectoryFile.write", cases=[(True, True), (False, False), (True, False), (False, True)], replay="writer:text",
          covers=[], max_paths=400)(mdcrd_writer)
+
+
+def lammps_writer(ctx, case=None):
+    """LAMMPSTrajectoryFile.write (orthogonal cells): one call with two frames vs one call per frame give the same token stream EXCEPT the number on
+    the line after `ITEM: TIMESTEP` (the call-local frame counter; the reader does not use it), and every frame is header, box bounds
+    `min_k  min_k + length_k`, then one line `id type x y z` per atom (ids 1..n in order, coordinates `8.3f`)."""
+    from mdvc import npobj
+
+    c03.install(ctx)
+    im = ctx.interp.import_models
+    im["numpy"] = npobj.NumpyO()
+
+    def valid(x, dtype=None, *a, **k):
+        # ensure_type: validation is under contract elsewhere (C03); here it only performs its dtype cast of concrete arrays
+        if dtype is int and isinstance(x, _np.ndarray) and x.dtype != object:
+            return x.astype(int)
+        return x
+    for name in ("mdtraj.utils", "mdtraj.utils.validation"):
+        im[name]._attrs["ensure_type"] = valid
+    im["itertools"] = Namespace("itertools", count=lambda *a: None)
+    mod = ctx.module("mdtraj/formats/lammpstrj.py")
+    mod.globals["ensure_type"] = valid
+    cls = mod.globals["LAMMPSTrajectoryFile"]
+    hooks(ctx)
+    X, L, arr, box = frames(ctx)
+    ang = lambda fs: _np.array([[90.0, 90.0, 90.0] for _ in fs], dtype=object)
+    oarr = lambda a: a.view(npobj.OArr)
+    h1, s1 = handle(cls, "lammpstrj")
+    o = ctx.call_method(h1, "write", oarr(arr([0, 1])), oarr(box([0, 1])), ang([0, 1]))
+    ctx.ensure("one-call:no-exception", not o.raised)
+    h2, s2 = handle(cls, "lammpstrj")
+    o1 = ctx.call_method(h2, "write", oarr(arr([0])), oarr(box([0])), ang([0]))
+    o2 = ctx.call_method(h2, "write", oarr(arr([1])), oarr(box([1])), ang([1]))
+    ctx.ensure("two-calls:no-exception", not o1.raised and not o2.raised)
+    if o.raised or o1.raised or o2.raised:
+        return
+    ctx.cover("written")
+
+    def lines_of(sink):
+        """split the token stream into text lines; the TIMESTEP value line is replaced by a placeholder"""
+        out, cur = [], []
+        for k in sink.stream():
+            if k[0] == "txt":
+                parts = k[1].split("\n")
+                for j, p in enumerate(parts):
+                    if p:
+                        cur.append(("txt", p))
+                    if j < len(parts) - 1:
+                        out.append(cur)
+                        cur = []
+            else:
+                cur.append(k)
+        if cur:
+            out.append(cur)
+        for i, ln in enumerate(out):
+            if ln == [("txt", "ITEM: TIMESTEP")] and i + 1 < len(out):
+                out[i + 1] = [("txt", "<timestep>")]
+        return out
+    a, b = lines_of(s1), lines_of(s2)
+    ctx.ensure("one-call-with-two-frames==two-calls-with-one-frame-each(apart-from-the-TIMESTEP-numbers)", a == b)
+    ctx.ensure("lines-per-frame=9+n_atoms", len(b) == F * (9 + A))
+    if len(b) != F * (9 + A):
+        return
+    for f in range(F):
+        fr = b[f * (9 + A):(f + 1) * (9 + A)]
+        ctx.ensure(f"frame{f}:header-lines", fr[0] == [("txt", "ITEM: TIMESTEP")] and fr[2] == [("txt", "ITEM: NUMBER OF ATOMS")] and fr[3] == [("txt", str(A))]
+                   and fr[4] == [("txt", "ITEM: BOX BOUNDS pp pp pp")] and fr[8] == [("txt", "ITEM: ATOMS id type xu yu zu")])
+        for at in range(A):
+            ln = fr[9 + at]
+            nums = [k for k in ln if k[0] == "num"]
+            ctx.ensure(f"frame{f}:atom-line{at}:id={at + 1},then-type,then-x-y-z(8.3f)-of-that-atom", len(nums) >= 3 and nums[-3:] == [num(X[f][at][k]) for k in range(3)]
+                       and (ln[0] == ("txt", f"{at + 1} ") or (ln[0][0] == "txt" and ln[0][1].split()[:1] == [str(at + 1)])))
+
+
+contract("C19", "mdtraj/formats/lammpstrj.py", "LAMMPSTrajectoryFile.write", replay="writer:text", covers=["written"], max_paths=200)(lammps_writer)
